@@ -44,7 +44,18 @@ MANIFEST = {
             "_periodic/_key_order, the office-lan theorems (C20_office_build_eq_declared and the structure theorems) which now also "
             "hold INSIDE build; C20_option_precedence: for every option that has a second source outside the entry (regenerated table "
             "of install() hooks: dns-client dns_server vs the node's dns_server) the built value is the entry's, else the outer "
-            "source's, else none - part of build = declared / spec through SoftInv.effective. Tie: Gen/Config.lean (site inventory; constants; system-software, firewall-ACL, frequency tables; "
+            "source's, else none - part of build = declared / spec through SoftInv.effective. ONE ATTRIBUTE, SEVERAL SOURCES (round 7): the "
+            "statements of PrimaiteGame.from_config that decide a service's fixing_duration, a node's start_up / shut_down / node_scan "
+            "duration, a service's restart_duration and a link's bandwidth are TRANSLATED on every run (symbolic execution of the slice "
+            "that writes the attribute, Python truthiness / int() / .get / in / or / and included -> Gen/ConfigResolve.lean) and proved, "
+            "for ALL values of both sources (0, '', False, '0', 0.0 included), every initial value and every other key, equal to "
+            "`effective` = the entry's own value if the entry DECLARES the key, else the defaults section's, else what was there "
+            "(C20_gen_resolve_*; C20_or_rewrite_is_not_effective shows the `own or default` shape fails at own = 0; "
+            "C20_effective_is_getD links `effective` to the closed forms of build / declared / spec); C20_gen_truthiness_sites pins every "
+            "truthiness test of a value in the loader functions. The rig enumerates the same grid on the real loader, evaluates the "
+            "regenerated translation against the specification on it (counter-model -> scenario file -> replay) and declares every "
+            "option of every registered software schema / node schema key / user / file / ACL rule / route / link / game option / "
+            "agent setting with each falsy value its schema accepts, without and with the competing sources. Tie: Gen/Config.lean (site inventory; constants; system-software, firewall-ACL, frequency tables; "
             "assignment table and constructor chains of every software class; every key of the defaults section with the statement "
             "that applies it; the keys the eight ACL rule loops read (both address spellings, each wildcard mask from its own key); "
             "wireless-router ports and sections; scheduler shape and freshness; no loader consumes its argument; install/uninstall "
